@@ -5,7 +5,7 @@
    stands when the record is produced — identities, and attribute by attribute ABSATR or count / code / units / values.
    What remains per run: that the stored state at write time is the last accepted assignment plus the documented
    defaults (the harness computes the expectation from the operation list, not from dliswriter objects): see DESIGN. *)
-From DV Require Import Model.ApiDispatch Proofs.BuilderP Proofs.EflrP Model.EflrReader Proofs.StructP Proofs.FileP Proofs.RegP Proofs.KeepP Proofs.ContentP.
+From DV Require Import Model.ApiDispatch Proofs.BuilderP Proofs.EflrP Model.EflrReader Proofs.StructP Proofs.FileP Proofs.RegP Proofs.KeepP Proofs.ContentP Proofs.CoverP.
 
 Theorem C05_assign_value : forall hc st it idx r it',
   set_value hc st it idx r = OK it' -> (idx < length (i_attrs it))%nat ->
@@ -162,6 +162,49 @@ Example C05_file_content_ex :
   end.
 Proof. vm_compute. reflexivity. Qed.
 
+(* NOTHING IS LOST (one logical file; Proofs/CoverP.v). After any sequence of API calls and writes on a DLISFile with one
+   logical file, whenever write returns a file, EVERY object of the specification — every accepted add_* call; rejected calls
+   add none (C20) — is an object of a set whose record is in the file: the record decodes (set_matches) to the set as it
+   stands in the state the write leaves, and that set lists the object as the encoder sees it there (obj_of st' i: identity,
+   attributes as given plus the write-time defaults, by skeeps). Invariants behind it, all by induction over operations and
+   writes: every set is registered in the physical registry under its own (type, name) and every object is listed in a set
+   (Inv_fm); the logical file's registry holds every non-empty set of the physical one (Inv_one, Proofs/VisP.v); an object is
+   listed in at most one set (Inv_disj). With several logical files the same needs the per-file ownership that known
+   finding D12 breaks; it is judged per run there. *)
+Theorem C05_every_object_is_in_the_file : forall l ps hc w st' bs f,
+  let st := snd (run_actions ps b_init l) in
+  b_lfs st = [f] -> write hc st w = (st', OK bs) ->
+  exists g, write_file {| sul_seq := w_seq w; sul_vrl := w_vrl w; sul_id := w_ident w |} g = OK bs
+    /\ skeeps st st'
+    /\ forall i, (i < length (b_items st))%nat ->
+         exists sid r d, In r g /\ lr_eflr r = true /\ dec_set (lr_body r) = Some d /\ set_matches (eset_of st' sid) d
+                         /\ In (obj_of st' i) (e_objs (eset_of st' sid)).
+Proof.
+  intros l ps hc w st' bs f st Hf H.
+  assert (C : cover_invs st) by (apply reachable_cover_invs; apply cover_invs_init).
+  assert (Hd : Inv_disj st) by (apply reachable_inv_disj_actions; [apply cover_invs_init | apply cover_invs_init | apply inv_disj_init]).
+  exact (every_object_is_written hc st w st' bs f C Hd Hf H).
+Qed.
+
+(* ... and with SEVERAL logical files none of which shares a set with another (the hypothesis excludes exactly known finding
+   D12): every object is in the group of records of a logical file that registers its set (covered: every non-empty set is
+   registered for at least one logical file, by induction over operations and writes). *)
+Theorem C05_every_object_is_in_the_file_multi : forall l ps hc w st' bs,
+  let st := snd (run_actions ps b_init l) in
+  NoDup (concat (map lf_sids (b_lfs st))) -> write hc st w = (st', OK bs) ->
+  exists groups, write_file {| sul_seq := w_seq w; sul_vrl := w_vrl w; sul_id := w_ident w |} (concat groups) = OK bs
+    /\ Forall2 (lf_group st') (b_lfs st) groups /\ skeeps st st'
+    /\ forall i, (i < length (b_items st))%nat ->
+         exists sid g r d, In g groups /\ In r g /\ lr_eflr r = true /\ dec_set (lr_body r) = Some d
+                           /\ set_matches (eset_of st' sid) d /\ In (obj_of st' i) (e_objs (eset_of st' sid)).
+Proof.
+  intros l ps hc w st' bs st Hnd H.
+  assert (C : cover_invs st) by (apply reachable_cover_invs; apply cover_invs_init).
+  assert (Hc : covered st) by (apply reachable_covered; [apply cover_invs_init | apply covered_init]).
+  assert (Hd : Inv_disj st) by (apply reachable_inv_disj_actions; [apply cover_invs_init | apply cover_invs_init | apply inv_disj_init]).
+  exact (every_object_is_written_multi hc st w st' bs C Hc Hd Hnd H).
+Qed.
+
 Print Assumptions C05_assign_value.
 Print Assumptions C05_assign_units.
 Print Assumptions C05_value_readback.
@@ -171,3 +214,5 @@ Print Assumptions C05_api_frame.
 Print Assumptions C05_write_changes_only_defaults.
 Print Assumptions C05_file_content.
 Print Assumptions C05_file_content_single.
+Print Assumptions C05_every_object_is_in_the_file.
+Print Assumptions C05_every_object_is_in_the_file_multi.
